@@ -171,8 +171,24 @@ def run_oracle(chk, n_cases, procs):
     per = 2500
     jobs = [(chk.seed * 1000003 + i, min(per, n_cases - i * per), vlib.REPO, 5 if i % 4 else 4)
             for i in range((n_cases + per - 1) // per)]
-    with mp.get_context("fork").Pool(procs) as pool:
-        results = pool.map(valid_oracle.worker, jobs, chunksize=1)
+    results = []
+    import time
+    pool = mp.get_context("fork").Pool(procs)
+    lost = 0
+    budget = 1500 if len(jobs) > 20 else 400
+    try:
+        pending = [pool.apply_async(valid_oracle.worker, (j,)) for j in jobs]
+        t_end = time.time() + budget
+        for r in pending:
+            try:
+                results.append(r.get(timeout=max(1, t_end - time.time())))
+            except mp.TimeoutError:
+                lost += 1
+        pool.terminate()
+    finally:
+        pool.join()
+    if lost:
+        chk.obligation("all %d oracle jobs returned within %d s" % (len(jobs), budget), False, "%d job(s) did not return" % lost)
     fails = {}
     for r in results:
         for k, v in r["counts"].items():
